@@ -11,7 +11,7 @@
  * @link lib/common/zstd_common.c lib/common/error_private.c
  * @mem loop
  * @cbmc --unwind 9 --unwindset __builtin_memcpy.0:38,__builtin_memmove.0:38,__builtin_memmove.1:38,harness.0:100,harness.1:10
- * @timeout 600
+ * @timeout 1200
  * @memgb 6
  * @instance f9 tier=thorough -DFS=9
  * @instance f17 -DFS=17
